@@ -811,8 +811,12 @@ func (rw *rewriter) rangeMap(x *ast.RangeStmt, depth int) {
 		case !hasKey && !hasVal:
 			head = fmt.Sprintf("; for range %s {%s", keys, yield)
 		case hasVal:
-			head = fmt.Sprintf("; for _, %s := range %s { %s, %s := %s[%s]; if !%s { continue };%s",
-				keyName, keys, rw.text(x.Value.Pos(), x.Value.End()), ok, m, keyName, ok, yield)
+			// the value variable is declared once, before the loop: the module's Go version (before
+			// 1.22) gives a range loop ONE variable per name, and code that stores &v or captures v in a
+			// closure behaves accordingly
+			val := rw.text(x.Value.Pos(), x.Value.End())
+			head = fmt.Sprintf("; %s := %s.ZeroVal(%s); _ = %s; for _, %s := range %s { var %s bool; %s, %s = %s[%s]; if !%s { continue };%s",
+				val, alias, m, val, keyName, keys, ok, val, ok, m, keyName, ok, yield)
 		default:
 			head = fmt.Sprintf("; for _, %s := range %s { if _, %s := %s[%s]; !%s { continue };%s",
 				keyName, keys, ok, m, keyName, ok, yield)
@@ -847,7 +851,9 @@ func (rw *rewriter) rangeChan(x *ast.RangeStmt, depth int) {
 	case !hasKey:
 		head = fmt.Sprintf("; for { _, %s := %s; if !%s { break };%s", ok, recv, ok, yield)
 	case x.Tok == token.DEFINE:
-		head = fmt.Sprintf("; for { %s, %s := %s; if !%s { break };%s", rw.text(x.Key.Pos(), x.Key.End()), ok, recv, ok, yield)
+		// one variable for the whole loop, as before Go 1.22 (see rangeMap)
+		val := rw.text(x.Key.Pos(), x.Key.End())
+		head = fmt.Sprintf("; %s := %s.Zero(%s); _ = %s; for { var %s bool; %s, %s = %s; if !%s { break };%s", val, alias, c, val, ok, val, ok, recv, ok, yield)
 	default:
 		head = fmt.Sprintf("; for { var %s bool; %s, %s = %s; if !%s { break };%s", ok, rw.text(x.Key.Pos(), x.Key.End()), ok, recv, ok, yield)
 	}
